@@ -21,7 +21,13 @@ META = {
             "0xA0-0xFF cells equal the transcribed WinAnsi / MacRoman / PDFDoc rows), text_string / decode_text_string are "
             "recorded for all scalars 0..0xFF, class boundaries, a stride through all 1,112,064 scalars, random strings, "
             "UTF-8-with-mark and malformed byte strings, and generated pages showing table text with Tj/TJ are extracted "
-            "before and after save_to + load_mem; TLC judges every record.",
+            "before and after save_to + load_mem; TLC judges every record. The fonts are a variety of font dictionaries "
+            "(BaseFont Helvetica / Times-Roman / Symbol / ZapfDingbats / ABCDEF+Symbol / SegoeUISymbol / Arial-BoldMT ..., Subtype "
+            "Type1 / TrueType / Type3 / MMType1, with and without FirstChar/LastChar/Widths/FontDescriptor) that all name a "
+            "predefined /Encoding and have no /ToUnicode: each of the five tables is dumped through each dictionary (published "
+            "rows and equality with the logged table), and pages are extracted with them. Text put on a page by "
+            "Document::replace_text under two or three fonts of different encodings (replacement characters whose codes differ "
+            "between the tables) must come back from extraction before and after save + reload.",
     "note": "Trusted: TLC, the transcription of Annex D rows in TextString!Published (cells whose Unicode value is ambiguous "
             "or undefined are left out and only checked for self-consistency), Rust's char/str for building inputs. "
             "Exhaustive for the model bounds and the 1280 table cells; scalar values beyond the boundaries are strided, "
@@ -29,8 +35,17 @@ META = {
     "design_ref": "DESIGN.md section 4 C16",
 }
 
+ENCS = ("StandardEncoding", "MacRomanEncoding", "MacExpertEncoding", "WinAnsiEncoding", "PDFDocEncoding")
 MARK16 = [0xFE, 0xFF]
 MARK8 = [0xEF, 0xBB, 0xBF]
+
+
+def vacuous(chk, msg):
+    """A vacuity guard never masks a violation: with unlisted violations found the run is reported as such (exit 1)."""
+    if chk.violations:
+        log("[C16] vacuity guard suppressed (violations present): %s" % msg[:300])
+    else:
+        raise vlib.ToolError(msg)
 
 
 def judge_case(c, r):
@@ -97,7 +112,7 @@ def run_mc(chk, cfg, tier, w, emit=True):
     }
     missing = [k for k, v in need.items() if not v]
     if missing:
-        raise vlib.ToolError("vacuous generated set: missing %s" % missing)
+        raise vlib.ToolError("vacuous generated set: missing %s" % missing)       # inputs only: cannot hide a violation
     cin, cout = os.path.join(w, "gen.ndjson"), os.path.join(w, "gen.out.ndjson")
     write_ndjson(cin, cases)
     run_bin("c16", ["replay", "--in", cin, "--out", cout])
@@ -134,6 +149,8 @@ def run_mc(chk, cfg, tier, w, emit=True):
 def table_sig(f, rec):
     if f.startswith("table.") and rec["k"] == "cell":
         return "C16:%s.%s.0x%02X" % (f, rec["e"], rec["b"])
+    if f.startswith("table.") and rec["k"] == "vtab":
+        return "C16:%s.%s[%s]" % (f, rec["e"], rec["fv"])
     if f.startswith("table.") and rec["k"] == "bytes":
         return "C16:%s.%s" % (f, rec["e"])
     return "C16:" + f
@@ -149,7 +166,7 @@ def validate(chk, tr, recs, name):
 
 
 def slim(rec):
-    return {k: v for k, v in rec.items() if k not in ("msg",) and not (k in ("cs", "encs", "sts", "ds") and len(v) > 8)}
+    return {k: v for k, v in rec.items() if not (k in ("cs", "encs", "sts", "ds") and len(v) > 8)}
 
 
 def run(tier):
@@ -170,9 +187,9 @@ def run(tier):
                                      "1280 cells of the five tables; scalar values are strided, strings and pages sampled")
 
     # (V) recorded lopdf calls judged by the declarative layer
-    n, stride, next_ = (300, 271, 60) if tier == "quick" else (6000, 1, 1500)
+    n, stride, next_, nrep = (300, 271, 80, 60) if tier == "quick" else (6000, 1, 1500, 1200)
     tr = os.path.join(w, "trace.ndjson")
-    run_bin("c16", ["record", "--seed", vlib.seed(), "--n", n, "--stride", stride, "--ext", next_, "--out", tr])
+    run_bin("c16", ["record", "--seed", vlib.seed(), "--n", n, "--stride", stride, "--ext", next_, "--rep", nrep, "--out", tr])
     recs = read_ndjson(tr)
     kinds = {}
     for rec in recs:
@@ -189,7 +206,22 @@ def run(tier):
             lambda p: p["op"] == "Tj", lambda p: p["op"] == "TJ", lambda p: p["f"] == "hex", lambda p: any(b >= 0x80 for b in p["b"]),
             lambda p: any(b in (0x28, 0x29, 0x5C) for b in p["b"]))),
         "every table shown": all(any(rec["k"] == "ext" and any(p["e"] == e and p["b"] for p in rec["parts"]) for rec in recs)
-                                 for e in ("StandardEncoding", "MacRomanEncoding", "MacExpertEncoding", "WinAnsiEncoding", "PDFDocEncoding")),
+                                 for e in ENCS),
+        # the table named by /Encoding through every other kind of font dictionary (BaseFont, Subtype, widths, descriptor)
+        "every encoding through >= 12 other font dictionaries": all(
+            len({rec["fv"] for rec in recs if rec["k"] == "vtab" and rec["e"] == e}) >= 12 for e in ENCS),
+        "font dictionaries named *Symbol, ZapfDingbats, TrueType, Type3, with widths / descriptor": all(
+            any(rec["k"] == "vtab" and s in rec["fv"] for rec in recs)
+            for s in ("/Symbol", "+Symbol", "SegoeUISymbol", "ZapfDingbats", "TrueType/", "Type3/", "+widths", "+descriptor", "no-BaseFont")),
+        "pages whose fonts are such dictionaries": all(
+            any(rec["k"] == "ext" and any(s in p["fv"] and p["b"] for p in rec["parts"]) for rec in recs)
+            for s in ("Symbol", "TrueType/", "Helvetica")),
+        "fonts without /Encoding observed": sum(1 for rec in recs if rec["k"] == "obs") >= 10,
+        # replace_text: the placeholder under >= 2 fonts of different encodings, a replacement whose codes differ between them
+        "replace_text across encodings": sum(1 for rec in recs if rec["k"] == "rep" and rec["cross"] == "yes"
+                                             and len({p["e"] for p in rec["parts"] if p["ph"] == "yes"}) >= 2) >= 20,
+        "replace_text with every table": all(any(rec["k"] == "rep" and any(p["e"] == e and p["ph"] == "yes" for p in rec["parts"])
+                                                 for rec in recs) for e in ENCS),
     }
     missing = [k for k, v in need.items() if not v]
     if missing:
@@ -205,11 +237,24 @@ def run(tier):
             for c in rec["cs"]:
                 chk.case(c)                       # int keys: the swept scalar values
         else:
-            chk.case(json.dumps({k: rec[k] for k in ("k", "e", "b", "s", "parts") if k in rec}, sort_keys=True))
+            chk.case(json.dumps({k: rec[k] for k in ("k", "e", "fv", "b", "s", "parts", "placeholder") if k in rec}, sort_keys=True))
         chk.traces += 1
         fails = list(v["vs"])
         if any(f.startswith("tool:") for f in fails):
             raise vlib.ToolError("trace record %d: %s (%s)" % (v["i"], fails, json.dumps(slim(rec))[:400]))
+        if rec["k"] == "vtab":
+            # fails are reported once per (clause, encoding, font dictionary) with the first offending byte
+            fails = []
+            for b in v["bad"]:
+                for f in b["vs"]:
+                    chk.violation(table_sig(f, rec), {"encoding": rec["e"], "font_dictionary": rec["fv"], "verdict": f,
+                                                      "first_byte": b["c"], "cells_affected": b["n"],
+                                                      "lopdf_cell": rec["ds"][b["c"]] if len(rec["ds"]) == 256 else None})
+            for f in v["vs"]:
+                if not v["bad"]:
+                    chk.violation(table_sig(f, rec), {"encoding": rec["e"], "font_dictionary": rec["fv"], "verdict": f, "st": rec["st"],
+                                                      "msg": rec.get("msg", "")})
+            continue
         for f in fails:
             chk.violation(table_sig(f, rec), {"record": slim(rec), "verdict": f, "classes": sorted(set(v["cls"]))})
         for b in v["bad"]:
@@ -221,9 +266,9 @@ def run(tier):
     # properties of the input, whatever the outcome)
     for t, least in (("published", 500), ("present", 300), ("absent", 100), ("utf16", 50), ("ascii", 20), ("utf8", 50),
                      ("raw-u16", 5), ("raw-tab", 5), ("raw-u8", 5), ("undef-u16", 5), ("undef-u8", 5), ("batch", 10),
-                     ("extract", 20)):
+                     ("extract", 20), ("vtab", 60), ("observed", 10), ("replace", 30)):
         if cats.get(t, 0) < least:
-            raise vlib.ToolError("vacuous validation: only %d records of category %s (need %d): %s" % (cats.get(t, 0), t, least, cats))
+            vacuous(chk, "vacuous validation: only %d records of category %s (need %d): %s" % (cats.get(t, 0), t, least, cats))
     chk.extra["record_categories"] = cats
     chk.extra["verdict_tags"] = tags
     chk.extra["record_kinds"] = kinds
@@ -231,10 +276,14 @@ def run(tier):
     ex = next(rec for rec in recs if rec["k"] == "ext" and len(rec["parts"]) >= 2)
     chk.sample({"recorded_page": [{k: p[k] for k in ("e", "op", "f", "b", "t")} for p in ex["parts"]][:3],
                 "extract_text": ex["r1"][:40], "after_save_load": ex["r2"][:40]})
+    rx = next((rec for rec in recs if rec["k"] == "rep" and rec["cross"] == "yes" and rec["st0"] == "ok"), None)
+    if rx:
+        chk.sample({"replace_text_page": [{k: p[k] for k in ("e", "fv", "ph", "t")} for p in rx["parts"]][:3],
+                    "placeholder": rx["placeholder"], "replacement": rx["replacement"], "extract_text": rx["r1"][:40]})
     cellx = next(rec for rec in recs if rec["k"] == "cell" and rec["e"] == "MacRomanEncoding" and rec["b"] == 0xDB)
     chk.sample({"recorded_cell": slim(cellx)})
 
-    # (B) negative control: corrupt one field of four records, the validator must reject each
+    # (B) negative control: corrupt one field of six records, the validator must reject each
     cells = [rec for rec in recs if rec["k"] == "cell"]
     accepted = [recs[v["i"] - 1] for v in verdicts if v["v"].startswith("ok")]
 
@@ -261,18 +310,33 @@ def run(tier):
     if n_cell:
         n_cell["d"] = [n_cell["d"][0] ^ 1]; n_cell["dd"] = n_cell["d"]              # one edited cell in the transcribed region
         negs.append(n_cell); want.append("table.published")
-    if len(negs) < 4 and not chk.violations:
+    n_rep = first(lambda rec: rec["k"] == "rep" and rec["st0"] == "ok" and rec["cross"] == "yes" and any(c not in ws for c in rec["r1"]))
+    if n_rep:
+        i = max(i for i, c in enumerate(n_rep["r1"]) if c not in ws)
+        n_rep["r1"][i] ^= 1                                                         # one replaced character came back as another
+        negs.append(n_rep); want.append("replace.fresh")
+    n_vt = first(lambda rec: rec["k"] == "vtab" and rec["e"] == "MacRomanEncoding" and "Symbol" in rec["fv"])
+    if n_vt:
+        n_vt["ds"][0x22] = [0x2200]                                                 # the Symbol font's built-in code for 0x22
+        negs.append(n_vt); want.append("table.published")
+    # the edited duplicate cell goes last: the later records are judged with the complete logged table
+    order = sorted(range(len(negs)), key=lambda i: negs[i]["k"] == "cell")
+    negs, want = [negs[i] for i in order], [want[i] for i in order]
+    if len(negs) < 6 and not chk.violations:
         raise vlib.ToolError("could not build all negative controls although nothing was rejected")
     ntr = os.path.join(w, "neg.ndjson")
     write_ndjson(ntr, cells + negs)
     _, nv = validate(chk, ntr, cells + negs, "c16neg")
     got = [v["v"] for v in nv[len(cells):]]
     if got != want:
-        raise vlib.ToolError("negative controls not rejected as expected: got %s, want %s" % (got, want))
+        vacuous(chk, "negative controls not rejected as expected: got %s, want %s" % (got, want))
     chk.extra["negative_controls_rejected"] = chk.extra.get("negative_controls_rejected", 0) + len(negs)
     chk.assumptions = [
         "the transcription of ISO 32000-1 Annex D (printable ASCII and 0xA0-0xFF rows of WinAnsi, MacRoman, PDFDocEncoding) in spec/TextString.tla",
         "layout white space (space, TAB, LF, CR) added by extract_text between/after shown strings does not count as a change of the text",
+        "a font dictionary with an explicit predefined /Encoding name, no /Differences and no /ToUnicode shows text with exactly that encoding, "
+        "whatever its BaseFont / Subtype / widths / descriptor say (ISO 32000-1 9.10.2); fonts without /Encoding are observed, not judged",
+        "if Document::replace_text returns an error nothing was shown through it (not judged)",
         "malformed input (odd-length UTF-16, unpaired surrogates, ill-formed UTF-8, bytes outside the carried PDFDoc rows) is unconstrained except that it must not panic",
     ]
     return chk.finish()
